@@ -84,6 +84,12 @@ func (l *queryLog) searchMemory(
 			// Go on and try to match anyway.
 		}
 
+		if l.isIgnored(e.QHost) || (e.client != nil && e.client.IgnoreQueryLog) {
+			// Just like the entries from the files, the entries in memory
+			// aren't shown once their host or client has become ignored.
+			return true
+		}
+
 		if params.match(e) {
 			entries = append(entries, e)
 		}
